@@ -817,6 +817,7 @@ int32_t jls_core_fsr_length(struct jls_core_s * self, uint16_t signal_id, int64_
 
     // length is not store explicitly
     // traverse to last entry of each level to then reach last data block.
+    int64_t length = -1;
     int64_t offset = 0;
     int64_t * offsets = self->signal_info[signal_id].tracks[JLS_TRACK_TYPE_FSR].head_offsets;
     int level = JLS_SUMMARY_LEVEL_COUNT - 1;
@@ -858,9 +859,9 @@ int32_t jls_core_fsr_length(struct jls_core_s * self, uint16_t signal_id, int64_
         if (lvl == 1) {
             ROE(jls_core_rd_chunk(self)); // summary
             struct jls_fsr_f32_summary_s * s = (struct jls_fsr_f32_summary_s *) self->buf->start;
-            *signal_length = s->header.timestamp +
-                             s->header.entry_count * signal_def->sample_decimate_factor
-                             - signal_def->sample_id_offset;
+            length = s->header.timestamp +
+                     s->header.entry_count * signal_def->sample_decimate_factor
+                     - signal_def->sample_id_offset;
         }
     }
 
@@ -868,9 +869,10 @@ int32_t jls_core_fsr_length(struct jls_core_s * self, uint16_t signal_id, int64_
         ROE(jls_raw_chunk_seek(self->raw, offset));
         ROE(jls_core_rd_chunk(self));
         struct jls_fsr_data_s * d = (struct jls_fsr_data_s *) self->buf->start;
-        *signal_length = d->header.timestamp + d->header.entry_count - signal_def->sample_id_offset;
+        length = d->header.timestamp + d->header.entry_count - signal_def->sample_id_offset;
     }
-    *samples = *signal_length;
+    *signal_length = length;  // cached only once every chunk on the way was read
+    *samples = length;
     return 0;
 }
 
